@@ -257,7 +257,10 @@ pub fn vector_oracle(_ctx: &RunCtx, iv: &(usize, Vector), log: &mut CaseLog) -> 
     // without touching the wire protocol.
     fn protocol_part(l: &[(String, usize, bool)]) -> Vec<(String, usize, bool)> {
         let first_h = l.iter().position(|(x, _, c)| x == "H" && !*c);
-        let last_ch = l.iter().rposition(|(_, _, c)| *c);
+        // the protocol's last challenge is the one drawn after `B` was absorbed (a verifier may draw further challenges from
+        // transcripts of its own afterwards)
+        let b_at = first_h.and_then(|h| l[h..].iter().position(|(x, _, c)| x == "B" && !*c).map(|i| h + i));
+        let last_ch = b_at.and_then(|b| l[b..].iter().position(|(_, _, c)| *c).map(|i| b + i));
         match (first_h, last_ch) {
             (Some(a), Some(b)) if a <= b => {
                 let a = if a > 0 && l[a - 1].0 == "dom-sep" { a - 1 } else { a };
